@@ -38,10 +38,18 @@ CFG = dict(
          "through the real Proxy and the real Demux; (B) seeded random lock-step schedules, 1..8 callers x 1..3 calls, three topologies; "
          "(C) free-running (no gating, seeded yields at the verif hooks): 64 callers x 200 calls at GOMAXPROCS 1/4/16, 8 x 100 through "
          "Proxy and Demux, and 12 (thorough 60) runs of 25 rounds in which 64 goroutines leave the fail-fast check of CallUnaryMethod at "
-         "the same instant (spin barrier at the mux.checked hook); every history judged by spec_c01",
+         "the same instant (spin barrier at the mux.checked hook); (D) PLAIN calls - no outgoing metadata, no deadline, handler linked to "
+         "its call by the payload - several in sequence per caller on ONE method, over by-reference and serialising wires, direct / real "
+         "Proxy / real Demux: exhaustive (1 caller x 3 resp. 2 calls; thorough 2 callers x 2), half of the threads of (B), free-running 8 x 50 "
+         "through by-reference Proxy and Demux and 32 x 50 direct; (E) callers whose context is ALREADY cancelled / expired (on a transport "
+         "whose Write tests its context first) next to calls in flight: exhaustive {2 live + 1 dead, 1 live + 2 dead, Demux 2 + 1, Proxy plain "
+         "2 calls + 1 dead}, 0..2 dead threads in half of (B), free-running 32 live + 6 dead and 16 plain + 4 dead through the Demux: the dead "
+         "ones must fail, every other call must get the reply to its own request; every history judged by spec_c01",
     assumptions=["payload bytes are identified by a 59-bit hash taken at the moment of each observation (a collision could hide, never "
                  "create, a difference)",
-                 "handler invocation and call are linked by a request-metadata tag (sy-c), i.e. through the same envelope",
+                 "handler invocation and call are linked by a request-metadata tag (sy-c), i.e. through the same envelope; plain calls "
+                 "by the first nine bytes of the payload",
+                 "a caller with an already-ended context records nothing unless its call succeeds or its handler runs",
                  "the lock-step tie of the two component models to the code is ./check CL and ./check SV; this check ties the "
                  "end-to-end behaviour by the spec predicates only (no agrees through Sys: exploring all internal orders of the "
                  "product was not tractable in the time available)",
